@@ -127,6 +127,10 @@ def run(ctx):
         queries_compared_across_settings=compared,
         queries_with_setting_dependent_results=differing,
         settings=SEARCH_SETTINGS,
+        input_distribution=vf.histogram([dict(c=[m["kindq"].split(".")[-1], "case_sensitive" if m["case_sensitive"] else "case_insensitive",
+                                                 "matches" if m.get("nontrivial") else "no-match"]
+                                                + (["has-\\B"] if "\\B" in m["compiled"] else [])
+                                                + (["mixed-length-fold-rune"] if m["mixed_fold_rune"] else [])) for m in meta.values()], "c"),
         traces_validated_against_impl=ev["evaluated"],
         correspondence_mismatches=len(ev["bad"]),
         oracle_failures=len(failures),
